@@ -32,7 +32,9 @@ def c16(tier, seed):
         MC("MC_Merge", dict(UA="<-U_FhtSmall", UB="<-U_FhtSmall", FieldPaths="<-FP_Named"), invariants=C16_INV,
            dev={"PolicyTreeNotDescended"}, expect_violation=True, label="MC_Merge/C16-refute-deviation"),
         GEN("Gen_Merge", dict(UA=ua, UB="<-U_FhtSmall", PolSet="<-PolsTwo" if q else "<-Pols", FosSet="<-FosAll"),
-            "merge", replay_args=["--reprs", "map"], label="Gen_Merge/fieldopts", min_cases=100000),
+            "merge", replay_args=["--reprs", "map"], label="Gen_Merge/fieldopts", min_cases=100000,
+            # thorough: 4.6 M cases, about 8 minutes alone on 16 cores; measured to exceed 30 minutes when two other runs share them
+            timeout=1800 if q else 5400),
         # the value at the per-field path is a REFERENCE to a list / dictionary of the source (variable expansion on)
         GEN("Gen_Merge", dict(UA="<-U_FhtSmall", UB="<-U_FhtRef", PolSet="<-Pols", FosSet="<-FosAll"),
             "merge", replay_args=["--reprs", "map,cfg"], label="Gen_Merge/fieldopts-on-references", min_cases=10000),
